@@ -40,8 +40,17 @@ func (rc *CRespCodec) Decode(c CConn) (*Msg, error) {
 		return nil, errors.ErrIncompletePacket
 	}
 
+	if bs[0] != '*' {
+		logging.Warnf("[%dc] unexpect resp, buf: %s", c.Fd(), utils.FormatRedisRESPMessages(buf.PeekAll()))
+		return nil, codec.ErrInvalidResp
+	}
+
 	line, err := buf.ReadLine()
 	if err != nil {
+		if headerLineErr(bs, buf.ReadSize(), err) == codec.ErrInvalidResp {
+			logging.Warnf("[%dc] unexpect resp, buf: %s", c.Fd(), utils.FormatRedisRESPMessages(buf.PeekAll()))
+			return nil, codec.ErrInvalidResp
+		}
 		return nil, errors.ErrIncompletePacket
 	}
 
@@ -50,10 +59,11 @@ func (rc *CRespCodec) Decode(c CConn) (*Msg, error) {
 	var n int
 	switch line[0] {
 	case '*':
-		n, err = parseLen(line[1:])
+		// a request is a non-empty array: "*0", "*-1" and non-canonical counts are invalid
+		n, err = parseReqLen(line[1:], maxReqArgs)
 		if n < 1 || err != nil {
 			logging.Warnf("[%dm][%dc] unexpect resp, buf: %s", msgId, c.Fd(), utils.FormatRedisRESPMessages(buf.PeekAll()))
-			return nil, err
+			return nil, codec.ErrInvalidResp
 		}
 	default:
 		logging.Warnf("[%dm][%dc] unexpect resp, buf: %s", msgId, c.Fd(), utils.FormatRedisRESPMessages(buf.PeekAll()))
@@ -279,19 +289,27 @@ func (rc *CRespCodec) MSet(resp *Msg) {
 }
 
 func (rc *CRespCodec) parseLine(buf *codec.Buffer) ([]byte, error) {
+	if first, err := buf.PeekN(1); err == nil && first[0] != '$' {
+		return nil, codec.ErrInvalidResp
+	}
+	start := buf.ReadSize()
 	line, err := buf.ReadLine()
 	if err != nil {
-		return nil, err
+		return nil, headerLineErr(buf.PeekAll()[start:], buf.ReadSize()-start, err)
 	}
 	switch line[0] {
 	case '$':
-		n, err := parseLen(line[1:])
-		if n < 0 || err != nil {
-			return nil, err
+		// a request argument is a bulk string: "$-1" and non-canonical lengths are invalid
+		n, err := parseReqLen(line[1:], maxReqBulkLen)
+		if err != nil {
+			return nil, codec.ErrInvalidResp
 		}
 		b, err := buf.ReadN(n)
 		if err != nil {
 			return nil, err
+		}
+		if tail, err := buf.PeekN(1); err == nil && tail[0] != '\r' {
+			return nil, codec.ErrInvalidResp
 		}
 		crlf, err := buf.ReadN(2)
 		if err != nil {
